@@ -120,10 +120,12 @@ def run(ctx):
     # ------------------------------------------------------------------ R2 (element display texts)
     r2 = Rule("C07", "C07.R2", "emit => register for labels, hints, guidance and media (Question, group, repeat)", floor=300,
               necessary="a jr:itext reference whose id is not in the itext block is a dangling reference for every language")
-    LABELS = {"absent": None, "empty": "", "text": "Name", "text+ref": "Hello ${q0}", "dict": {"en": "Name", "fr": "Nom"}}
+    LABELS = {"absent": None, "empty": "", "text": "Name", "text+ref": "Hello ${q0}", "dict": {"en": "Name", "fr": "Nom"},
+              # blank translation cells (dict / JSON input keeps them): the element still references its itext id, so it is registered
+              "dict with one blank cell": {"en": "", "fr": "Nom"}, "dict of one blank cell": {"en": ""}}
     MEDIA = {"absent": None, "empty": {}, "dict": {"image": "a.png"}, "localized": {"image": {"en": "a.png"}},
              "unsupported kind": {"pdf": "a.pdf"}, "unsupported kind, localized": {"pdf": {"en": "a.pdf", "fr": "b.pdf"}}}
-    HINTS = {"absent": None, "empty": "", "text": "A hint", "dict": {"en": "Hint"}}
+    HINTS = {"absent": None, "empty": "", "text": "A hint", "dict": {"en": "Hint"}, "dict of one blank cell": {"fr": ""}}
     GUID = {"absent": None, "empty": "", "text": "Guide", "dict": {"en": "G"}}
     n_eval = 0
     for (ln, lv), (mn, mv), (hn, hv), (gn, gv) in itertools.product(LABELS.items(), MEDIA.items(), HINTS.items(), GUID.items()):
